@@ -194,7 +194,7 @@ ITEMS = [
         final(self).costs() == old(self).costs(), final(self).total() == old(self).total(),
         final(self).max() == old(self).max(), final(self).hasher() == old(self).hasher()''',
          for_names={0: 'it'},
-         stmts={'B2/0~for (k, v)': 'let ghost p0 = pairs@;'},
+         stmts={'B2/0~for ': 'let ghost p0 = pairs@;'},
          loops={'B3': '''        invariant
             pairs@.len() < self.samples,
             pairs@.len() == p0.len() + it.index(),
@@ -207,7 +207,7 @@ ITEMS = [
     dict(kind='fn', file=F, impl=IMPL, name='hash_key', ret='r',
          spec='    ensures r == self.hasher().spec_hash(k)', props=['C20']),
     dict(kind='fn', file=F, impl=IMPL, name='increment_hashed_key', spec=H(INC_SPEC, 'key'),
-         stmts={'B0/0~if let Some(prev)': 'proof { lemma_sum_insert(self.key_costs@, key, cost); }'},
+         stmts={'B0/0~if let Some(': 'proof { lemma_sum_insert(self.key_costs@, key, cost); }'},
          props=['C20', 'C05']),
     dict(kind='fn', file=F, impl=IMPL, name='increment', spec=H(INC_SPEC, 'old(self).hasher().spec_hash(key)'), props=['C20', 'C05']),
     dict(kind='fn', file=F, impl=IMPL, name='remove_hashed_key', ret='r', external_body=True, spec=H(REM_SPEC, 'kh'), props=['C20', 'C05']),
@@ -219,7 +219,7 @@ ITEMS = [
         final(self).max() == old(self).max(), final(self).hasher() == old(self).hasher()''',
          props=['C20', 'C05']),
     dict(kind='fn', file=F, impl=IMPL, name='update_hashed_key', ret='r', spec=H(UPD_SPEC, 'k'),
-         stmts={'B0/0~match self.key_costs.get_mut': 'proof { lemma_sum_insert(self.key_costs@, k, cost); }'}, props=['C20', 'C05']),
+         stmts={'B0/0~match ': 'proof { lemma_sum_insert(self.key_costs@, k, cost); }'}, props=['C20', 'C05']),
     dict(kind='fn', file=F, impl=IMPL, name='update', ret='r', spec=H(UPD_SPEC, 'old(self).hasher().spec_hash(k)'),
          props=['C20', 'C05']),
 ]
